@@ -117,6 +117,7 @@ def run(ctx, mode):
         "Poseidon2 is kept opaque in these traces; its equality with the reference hash is C05",
     ]
     ctx.trusted += ["gnark v0.8.0 frontend/R1CS builder and solver, gnark test engine (modelled by the Sat gate table)"]
+    common.gates_tie(ctx)
     circ = 'Insertion' if mode == 'ins' else 'Deletion'
     tmism = common.trace_tie(ctx, targets(mode, ctx.thorough))
     for d, b in ([(3, 2), (30, 4)] + ([(1, 1), (2, 3), (8, 2), (20, 7)] if ctx.thorough else [])):
